@@ -546,10 +546,15 @@ class NPlatePerCellLineSmoother(RetrospectivePlateSmoother):
         for plate in screen.plates:
             plate_counts[self._get_plate_sample_id(plate)] += 1
 
+        # to_screen() re-encodes the sample ids, so samples are dropped by name
+        sample_names_by_id = screen.sample_mapping[0]
+
         for sample_id, plate_count in plate_counts.items():
             if plate_count < self.min_n_cell_line_plates:
                 logger.info("Dropping all plates for sample {}".format(sample_id))
-                screen = screen.subset(screen.sample_ids != sample_id).to_screen()
+                screen = screen.subset(
+                    screen.sample_names != sample_names_by_id[sample_id]
+                ).to_screen()
 
         return screen
 
